@@ -219,6 +219,15 @@ def _header_checksum_ok(init: FuncInfo) -> bool:
     req = sup[0].args[0]
     for _ in range(4):
         req = _subst(req, local)
+    def hexsrc(e):
+        return e.args[0] if isinstance(e, ast.Call) and norm(e.func) == "bytes.fromhex" and len(e.args) == 1 else None
+    if isinstance(req, ast.BinOp) and isinstance(req.op, ast.Add) and hexsrc(req.left) is not None:
+        # bytes form: fromhex(S) + self._checksum(fromhex(S))
+        ck = req.right
+        if not (isinstance(ck, ast.Call) and (call_chain(ck) or ("",))[-1] == "_checksum" and len(ck.args) == 1 and hexsrc(ck.args[0]) is not None):
+            return False
+        sent, summed = _flat_concat(hexsrc(req.left)), _flat_concat(hexsrc(ck.args[0]))
+        return sent == summed and bool(sent) and isinstance(sent[0], tuple) and sent[0][1].upper().startswith("AA55C07F")
     if not (isinstance(req, ast.Call) and norm(req.func) == "bytes.fromhex" and len(req.args) == 1):
         return False
     body = req.args[0]
